@@ -106,6 +106,8 @@ class ThreadPool(object):
                 try:
                     yield func(*arg)
                 except Exception:
+                    if raise_exceptions:
+                        raise
                     yield sys.exc_info()
             return
 
